@@ -1020,6 +1020,37 @@ fn main() {
               "let holds: Vec<i32> = g.iter().map(|h| **h).collect();")
 
 
+# ---- C07: a collection that passed the duplicate check must not be changeable, in safe code, into
+# one that lists a lock twice (defect D11: RetryingLockCollection::child_mut / as_mut / iter_mut were
+# available for collections over references)
+for mname, mutate in [
+    ("child_mut", "c.child_mut()[1] = &a;"),
+    ("as_mut", "AsMut::<Vec<&Mutex<i32>>>::as_mut(&mut c)[1] = &a;"),
+    ("iter_mut", "*c.iter_mut().nth(1).unwrap() = &a;"),
+    ("into_iter_mut", "for slot in &mut c { *slot = &a; }"),
+]:
+    route("C07", "duplicate_introduced_after_try_new_" + mname, ["E0277", "E0599"], """
+fn main() {
+    let (tx, rx) = std::sync::mpsc::channel();
+    std::thread::spawn(move || {
+        let a = Mutex::new(1);
+        let b = Mutex::new(2);
+        let mut c = RetryingLockCollection::try_new(vec![&a, &b]).expect("duplicate-free");
+        @@
+        let g = c.lock(ThreadKey::get().unwrap());
+        tx.send(g.len()).unwrap();
+    });
+    if rx.recv_timeout(std::time::Duration::from_secs(3)).is_err() {
+        println!("WITNESS: lock() on a collection validated by try_new never returns after safe code made it list one lock twice (single thread)");
+        std::process::exit(1);
+    }
+}
+""",
+          mutate + " //~ERR",
+          "let _ = c.child().len();",
+          note="D11")
+
+
 def emit():
     for prop in ("C14", "C15", "C07"):
         d = os.path.join(ROOT, prop)
@@ -1259,6 +1290,12 @@ fn main() {
               "happylock::rwlock::RwLockWriteGuard<'static, i32, SendRawRwLock>",
               C + "LockGuard<(happylock::mutex::MutexRef<'static, i32, SendRawMutex>,)>",
               "happylock::poisonable::PoisonGuard<'static, happylock::mutex::MutexRef<'static, i32, SendRawMutex>>",
+              # values that carry the key without being guards: the errors of refused / poisoned attempts
+              "happylock::poisonable::TryLockPoisonableError<'static, happylock::mutex::MutexRef<'static, i32, SendRawMutex>>",
+              "happylock::poisonable::PoisonError<happylock::poisonable::PoisonGuard<'static, happylock::mutex::MutexRef<'static, i32, SendRawMutex>>>",
+              "Result<happylock::mutex::MutexGuard<'static, i32, SendRawMutex>, happylock::ThreadKey>",
+              "happylock::poisonable::TryLockPoisonableError<'static, %s>" % MR,
+              "happylock::poisonable::PoisonError<%s>" % PG,
               "happylock::ThreadKey"]:
         lines.append('    println!("KEYSEND|%s|false|{}", ProbeSend::<%s>(PhantomData).is_send());' % (t, t))
     for t in key_yes:
